@@ -80,7 +80,9 @@ class LpNorm(Functional):
     def _call(self, x):
         """Return the Lp-norm of ``x``."""
         if self.exponent == 0:
-            return self.domain.one().inner(np.not_equal(x, 0))
+            # `np.not_equal` yields a boolean element, cast it back to the domain
+            return self.domain.one().inner(
+                self.domain.element(np.not_equal(x, 0)))
         elif self.exponent == 1:
             return x.ufuncs.absolute().inner(self.domain.one())
         elif self.exponent == 2:
